@@ -222,6 +222,47 @@ def accessor(ctx, letters):
     ctx.sample(sub, {"cube": "all 1024 words of length 5", "lc_values": [repr(v) for v in LCS]})
 
 
+def long_selfconsistency(ctx):
+    """Long, slowly converging series with extreme envelopes: the band must still be exactly the fixed-lambda
+    asymmetric smoother at the reported lambda (which always starts its reweighting from the zero curve)."""
+    sub = "selfconsistency_long"
+    nd = -3000.0
+    t4 = np.arange(400)
+    walk = np.round(np.cumsum(((t4 * 7919 + 13) % 601 - 300))).clip(-10000, 10000).astype(np.float64)
+    t = np.arange(144)
+    seasonal = np.round(3000 + 2500 * np.sin(t / 36 * 2 * np.pi) + ((t * 131) % 37 - 18) * 30)
+    fam = {
+        "walk400": walk,
+        "walk400_floor": np.maximum(walk, np.percentile(walk, 35)),
+        "steps400": np.round(((t4 // 37) % 5) * 1800 + ((t4 * 13) % 29) * 25).astype(np.float64),
+        "seasonal_floor": np.maximum(seasonal, 2200.0),
+        "seasonal_ceiling": np.minimum(seasonal, 4000.0),
+    }
+    for name, y in fam.items():
+        Y = y[None, :]
+        for p_env in (0.01, 0.99, 0.001, 0.02, 0.98):
+            for srange in (np.arange(-2, 1.2, 0.2), np.arange(0, 3.2, 0.2), np.arange(1.0, 4.5, 0.5)):
+                for variant, kw in (("ws2doptvp", dict(srange=srange)),):
+                    out, lopt = wc.call_variant(variant, Y, nd, p=p_env, **kw)
+                    exp, _ = wc.call_variant("ws2dpgu", Y, nd, lam=lopt, p=p_env)
+                    ctx.count(sub, evaluations=1, nontrivial=1)
+                    if not np.array_equal(out, exp):
+                        j = np.nonzero(out[0] != exp[0])[0]
+                        ctx.violation(sub, {"series": name, "p": p_env, "srange": [float(srange[0]), len(srange)], "variant": variant},
+                                      {"kind": "longsc"},
+                                      f"{variant} on series {name} (n={len(y)}), p={p_env}: band differs from ws2dpgu at the reported lambda {float(lopt[0])!r} "
+                                      f"at {len(j)} cells (e.g. cell {int(j[0])}: {int(out[0, j[0]])} vs {int(exp[0, j[0]])})")
+            if np.abs(y).max() < 32000:
+                for lc in (0.2, 0.9):
+                    out, lopt = wc.call_variant("ws2doptvplc", Y, nd, p=p_env, lc=lc)
+                    exp, _ = wc.call_variant("ws2dpgu", Y, nd, lam=lopt, p=p_env)
+                    ctx.count(sub, evaluations=1, nontrivial=1)
+                    if not np.array_equal(out, exp):
+                        ctx.violation(sub, {"series": name, "p": p_env, "lc": lc, "variant": "ws2doptvplc"}, {"kind": "longsc"},
+                                      f"ws2doptvplc on series {name}, p={p_env}, lc={lc}: band differs from ws2dpgu at the reported lambda {float(lopt[0])!r}")
+    ctx.sample(sub, {"series": list(fam), "p": [0.01, 0.99, 0.001, 0.02, 0.98]})
+
+
 def run(ctx):
     wc.compile_all()
     letters = wc.letters_for(ctx.seed)
@@ -243,9 +284,13 @@ def run(ctx):
     ctx.note("sranges", [list(s) for s in sranges(ctx.thorough())])
     ctx.note("lc_values", [repr(v) for v in LCS])
     accessor(ctx, letters)
+    long_selfconsistency(ctx)
 
 
 def replay(sub, case, p):
+    if case["kind"] == "longsc":
+        long_selfconsistency(p)
+        return
     if case["kind"] == "vc":
         y = np.asarray([case["y"]], dtype=np.float64)
         valid = y != case["nd"]
